@@ -52,6 +52,7 @@ Definition rel_same_dist_b (n d : nat) (Y Y' : T) : bool :=
 Definition mds_matrix_q := @mds_matrix_exec Qc QcOps.
 Definition kpca_matrix_q := @kpca_matrix_exec Qc QcOps.
 Definition isomap_matrix_q := @isomap_matrix_exec Qc QcOps.
+Definition isomap_pre_f23_q := @isomap_matrix_pre_f23_exec Qc QcOps.
 Definition lin_kernel_q := @lin_kernel_exec Qc QcOps.
 Definition sq_dist_q := @sq_dist_exec Qc QcOps.
 Definition mean_q := @mean_exec Qc QcOps.
